@@ -17,6 +17,14 @@ def run(prop: str, tier: str) -> int:
         from . import props_keyword
 
         return props_keyword.run(prop, tier)
+    if prop == "C18":
+        from . import props_registry
+
+        return props_registry.run(prop, tier)
+    if prop == "C09":
+        from . import props_repro
+
+        return props_repro.run(prop, tier)
     raise SystemExit(f"no check registered for {prop}")
 
 
